@@ -11,7 +11,7 @@ if ! rsync -a --exclude .git --exclude out --exclude bin --exclude evidence /ver
 if ! git -C $S/repo apply "$PATCH"; then echo "PATCH DOES NOT APPLY"; git -C /repo worktree remove --force $S/repo; rm -rf $S; exit 2; fi
 for P in "$@"; do
   echo "== $P on mutant $(basename $PATCH)"
-  (cd $S/verif || exit 2; VERIF_REPO=$S/repo ./check $P --tier ${TIER:-quick} --seed ${SEED:-1} 2>&1 | grep -v "^  finding" | cut -c1-300 | head -12; echo "exit=${PIPESTATUS[0]}")
+  (cd $S/verif || exit 2; VERIF_REPO=$S/repo ./check $P --tier ${TIER:-quick} --seed ${SEED:-1} 2>&1 | grep -v "^  finding\|^KNOWN-FINDING" | cut -c1-300 | head -12; echo "exit=${PIPESTATUS[0]}")
 done
 git -C /repo worktree remove --force $S/repo
 rm -rf $S
